@@ -44,6 +44,22 @@ CHECKS = {
  "C20": dict(technique="runtime inspection of live data structures at a quiescent point against predicates and a pinned snapshot",
    text="Exploration (finite space, enumerated completely: exhaustive=true). All entries of the five live tables are read after package initialisation and checked for well-formedness; every entry of the pinned baseline snapshot must be present with the same classification and is exercised through the real look-up.",
    note="baseline/tables.json was taken once from the pinned tree 0520984.", ref="6 C20"),
+
+ "C05": dict(technique="race detector (go build -race) over an unsynchronised concurrent workload + offline checker over recorded call histories from fresh child processes",
+   text="Exploration. (1) A race-instrumented build runs 4/16/64 goroutines x GOMAXPROCS 2/4/16 over a shared input set with IsSQLi/IsXSS mixed and no synchronisation between start barrier and join; DATA RACE blocks are counted in the GORACE log and de-duplicated by outermost library frames. (2) Sequential and interleaved call histories run in fresh child processes with per-goroutine event logs; an offline checker asserts one result per (operation,input) across all histories, goroutines and repetitions and equality with fresh-process references; overlap statistics show that interleaving happened.",
+   note="Race detection is happens-before based on the paths the shared inputs reach; the static audit of package-level writes named in the property text is another technique and is not done.", ref="6 C05"),
+ "C10": dict(technique="runtime monitoring: metamorphic relation (ASCII case re-assignment outside exempt positions) on IsSQLi verdict and fingerprint",
+   text="Exploration. A catalogue of ~130 seeds, one or more per case-folding site, is swept with all 2^k case masks (k<=12 letters; 4096/65536 random masks beyond); every other SQL workload input gets 8 masks. IsSQLi(s') must equal IsSQLi(s) in verdict and fingerprint. Exempt positions are over-approximated syntactically.",
+   note="Over-wide exemptions lose coverage only; never compare through strings.ToUpper (byte-wise flips).", ref="6 C10"),
+ "C11": dict(technique="runtime monitoring: metamorphic relations (case re-assignment; NUL insertion inside recorded name tokens) on IsXSS / per-context verdicts",
+   text="Exploration. HTML case-site catalogue with all 2^k masks plus 8 masks on every HTML workload input (inputs with a case variant of [CDATA[ skipped): IsXSS unchanged. For every input, context and tag-name/attribute-name token recorded through the accessor, a NUL is inserted at every interior position (and doubled on a sample): that context's verdict unchanged.",
+   note="Token boundaries come from the accessor's recorded token stream of the real tokenizer.", ref="6 C11"),
+ "C14": dict(technique="runtime monitoring: constant-false oracle over a benign grammar defined against the live keyword table + exhaustive class-abstraction lookup",
+   text="Exploration. All 62 {n,1} class sequences of length 1-5 are looked up in the live blacklist (exhaustive for the abstraction); every {word,number} sequence shape up to length 7 is instantiated 64 (2048) times from 8k admitted words and boundary-length numbers; e-mail/decimal/sentence shapes are sampled. IsSQLi must return (false,\"\").",
+   note="Words are filtered at run time against the live table; shapes calibrated once.", ref="6 C14"),
+ "C19": dict(technique="runtime monitoring: decoder specification (reference model) on exhaustively enumerated strings + constant-true oracle over enumerated scheme encodings",
+   text="Exploration. The character-reference decoder is compared (value, consumed length) with a 40-line specification on every string over a 14-symbol alphabet up to length 6 (7) and on boundary values around 0x1000FF; every per-byte encoding of data: and java (8^5, 8^4) and samples for the longer schemes, with junk prefixes, NUL/LF interleaving and case masks, must satisfy the URL predicate and be detected inside every live URL attribute under 4 quotings.",
+   note="Decoder specification written from the property text.", ref="6 C19"),
 }
 
 NOT_YET = {}
